@@ -81,6 +81,13 @@ Theorem C31_pickle_set : forall k items ref_loaded here,
 Proof. exact set_roundtrip_both. Qed.
 Print Assumptions C31_pickle_set.
 
+(* Database.to_json flushes first (db_to_json_flushes_session, scanned from /repo): every "pk" of the data section and every key of
+   the objects section is the object's final key, never null -- pending objects with automatic keys included *)
+Theorem C31_db_to_json_keys : forall (K : Type) (assign : nat -> K) (pk : nat -> option K) (objs : list nat),
+  db_to_json_keys assign pk objs = map (fun o => Some (final_key assign pk o)) objs /\ ~ In None (db_to_json_keys assign pk objs).
+Proof. exact @db_to_json_keys_final. Qed.
+Print Assumptions C31_db_to_json_keys.
+
 (* Database.to_json (model of its worklist, Model/C31ToJson.v): the "objects" section has an entry for every instance of the "data"
    section, and -- the worklist having run empty -- for every instance referred to through an included relationship attribute, so
    every reference can be resolved; the sections are data, objects and, unless with_schema=False, schema_hash plus (when the caller's
@@ -100,6 +107,17 @@ Theorem C31_to_json_sections : forall with_schema hash_matches,
   (In SSchema (to_json_sections with_schema hash_matches) <-> with_schema = true /\ hash_matches = false).
 Proof. exact to_json_sections_spec. Qed.
 Print Assumptions C31_to_json_sections.
+
+(* the permission filter: whatever Database.to_json ships has passed can_view (it refuses otherwise) *)
+Theorem C31_to_json_viewable : forall fuel succ roots viewable l, to_json_checked fuel succ roots viewable = Ok l ->
+  (forall o, In o l -> viewable o = true) /\ incl roots l.
+Proof. exact to_json_checked_viewable. Qed.
+Print Assumptions C31_to_json_viewable.
+
+Theorem C31_to_json_refuses : forall fuel succ roots viewable, (exists o, In o roots /\ viewable o = false) ->
+  to_json_checked fuel succ roots viewable = Err 5%nat.
+Proof. exact to_json_checked_refuses. Qed.
+Print Assumptions C31_to_json_refuses.
 
 (* non-vacuity: ('a*', ',c') and ('a', '*,c') -- equal after naive joining -- get different keys, and decode back *)
 Example C31_nonvacuous :
